@@ -306,7 +306,7 @@ package vm
 //@   requires memWf(vm.ca)
 //@   premise okCatch(b) ==> catchSig(b) < int(vm.st.BitSize) && notSelf(vm.st, strAt(b, 0))
 //@   requires[C08] @maxlevel okCatch(b) ==> belowMax(vm.st, strAt(b, 0))
-//@   modifies navMods(vm.st, vm.ca), count(codegets)
+//@   modifies navMods(vm.st, vm.ca), resetMods(vm), count(codegets)
 //@   ensures @vm vmOk(vm)
 //@   ensures @flags flagsKept(vm)
 //@   ensures @sep codeSep(vm, result0)
@@ -317,6 +317,8 @@ package vm
 //@   ensures @match okCatch(b) && old(fl(vm, catchSig(b))) == catchMode(b) && result1 == nil && (old(depth(vm.st)) >= 1 || isNode(strAt(b, 0))) ==> moveTable(vm.st, strAt(b, 0))
 //@   ensures @refused okCatch(b) && old(fl(vm, catchSig(b))) == catchMode(b) && old(moveRefused(vm.st, strAt(b, 0))) ==> result1 != nil && posKept(vm)
 //@   ensures[C08] @lockstep old(levels(vm.ca)) == old(depth(vm.st)) + 1 ==> levels(vm.ca) == depth(vm.st) + 1
+// a taken CATCH is a move: what the node that is left had mapped is not exposed to the target's template (C05)
+//@   ensures[C05,C07] @unmapped okCatch(b) && old(fl(vm, catchSig(b))) == catchMode(b) && result1 == nil ==> unmapped(vm)
 
 // CROAK: under the same test, abandons the pending bytecode.
 //@ pred okCroak(b) = okInt(b, 0) && afterInt(b, 0) < len(b)
